@@ -46,7 +46,8 @@ def _seeds(kind, rational):
     w = 'coded' if rational else 'ones'
     if kind == 'curve':
         return [A.shape_desc([[0, 0, 0, 0.5, 1, 1, 1]], [2], rational, 3, 'coded', w),
-                A.shape_desc([[0, 0, 0, 0, 0.25, 0.5, 1, 1, 1, 1]], [3], rational, 2, 'coded', w)]
+                A.shape_desc([[0, 0, 0, 0, 0.25, 0.5, 1, 1, 1, 1]], [3], rational, 2, 'coded', w),
+                A.shape_desc([[0, 0, 0, 1, 2, 2, 2]], [2], rational, 3, 'coded', w, normalize_kv=False)]
     if kind == 'surface':
         return [A.shape_desc([[0, 0, 0, 0.5, 1, 1, 1], [0, 0, 1, 1]], [2, 1], rational, 3, 'coded', w),
                 A.shape_desc([[0, 0, 1, 1], [0, 0, 0, 0.5, 0.5, 1, 1, 1]], [1, 2], rational, 3, 'coded', w)]
@@ -65,6 +66,8 @@ def gen_cases(tier, seed):
             for si in range(b['seeds_per_class']):
                 systems.append(dict(mode='bfs', system='spline', kind=kind, rational=rational, seed_index=si,
                                     depth=b['depth'][kind]))
+    # a curve that keeps its own knot range (normalize_kv=False): the domain is part of the derived state
+    systems.append(dict(mode='bfs', system='spline', kind='curve', rational=False, seed_index=2, depth=b['depth']['curve']))
     for kind in ('curve', 'surface'):
         systems.append(dict(mode='bfs', system='container', kind=kind, depth=b['depth']['container']))
     for kind, rational in (('surface', False), ('surface', True), ('volume', False)):
@@ -126,7 +129,7 @@ def _tess(obj):
 
 
 READERS_ALL = ['ctrlpts', 'weights', 'ctrlptsw', 'ctrlpts2d', 'evalpts', 'bbox', 'sample_size', 'delta', 'tess',
-               'data', 'dims']
+               'data', 'dims', 'domain', 'single', 'derivs']
 CP_READERS = ('ctrlpts', 'weights', 'ctrlptsw', 'ctrlpts2d', 'bbox', 'dims')
 
 
@@ -137,6 +140,20 @@ def read(obj, name):
         return [obj.dimension, obj.pdimension, obj.ctrlpts_size, plain(obj.cpsize), obj.rational]
     if name == 'data':
         return plain(obj.data)
+    if name == 'domain':
+        return [plain(obj.domain), plain(obj.range)]
+    if name in ('single', 'derivs'):
+        pd = obj.pdimension
+        kvs = [obj.knotvector] if pd == 1 else list(obj.knotvector)
+        degs = [obj.degree] if pd == 1 else list(obj.degree)
+        prm = [(kv[p] + kv[-(p + 1)]) / 2.0 for kv, p in zip(kvs, degs)]      # from the definition, not from .domain
+        if name == 'single':
+            return plain(obj.evaluate_single(prm[0] if pd == 1 else prm))
+        if pd == 1:
+            return plain(obj.derivatives(prm[0], 2))
+        if pd == 2:
+            return plain(obj.derivatives(prm[0], prm[1], 1))
+        return None
     return plain(getattr(obj, name))
 
 
@@ -174,7 +191,7 @@ class SplineSystem(object):
                     tsl=type(obj.tessellator) if pd == 2 else None)
 
     def fresh(self, D):
-        obj = D['cls']()
+        obj = D['cls']() if getattr(self, 'desc', {}).get('normalize_kv', True) else D['cls'](normalize_kv=False)
         pd = self.pd
         if pd == 1:
             obj.degree = D['degrees'][0]
@@ -279,6 +296,9 @@ class SplineSystem(object):
                 if op[2] == 1:
                     inner = [x * x for x in inner]
                 kv = [0.0] * (p + 1) + inner + [1.0] * (p + 1)
+                if not self.desc.get('normalize_kv', True):
+                    # another knot range on purpose: [0, 2] and [1, 3]
+                    kv = [2.0 * x + (1.0 if op[2] == 1 else 0.0) for x in kv]
                 if pd == 1:
                     obj.knotvector = kv
                 else:
@@ -609,6 +629,18 @@ class ContainerSystem(object):
                 got = 'EXC:' + type(e).__name__
             exp = self.read(fresh, r)
             ctx.check(obl + '.' + r, same(got, exp), dict(rc, reader=r), dict(feats, reader=r), exp, got)
+        # the elements themselves must not have been disturbed by the container's aggregates: each element's own
+        # sampled points equal those of an independent fresh element with the element's current definition
+        for k, e in enumerate(obj):
+            sub = D['elems'][k][0]
+            d = sub.definition(e)       # re-read: reading the container's aggregates sets the elements' delta
+            try:
+                got = plain(e.evalpts)
+            except Exception as ex:
+                got = 'EXC:' + type(ex).__name__
+            exp = plain(sub.fresh(d).evalpts)
+            ctx.check('C12.container.%s.element_views' % self.kind, same(got, exp), dict(rc, reader='element%d.evalpts' % k),
+                      dict(feats, element=k), exp, got)
 
 
 # ----------------------------------------------------------------------------------------
